@@ -302,6 +302,8 @@ def run(tier, seed, t0):
     allc = cases(tier)
     core.check_deterministic(judge, allc[3])
     st = core.pmap(_work, core.chunks(allc, 100))
+    # the same cases under other interpreter configurations (-O, -OO, -W error, -X dev)
+    core.interpreter_modes("C18", allc[:: max(1, len(allc) // 300)], st)
     # single-process history sweeps: the helpers are called on all MSM / 4076_201 cases again in
     # one process in three orders (GLONASS first, reversed, interleaved), so that state kept by a
     # helper between calls meets a message of another family
